@@ -726,6 +726,62 @@ def strip_noise(tree):
                     b[:] = keep
 
 
+def _has_effects(e):
+    return any(isinstance(x, (ast.Call, ast.Await, ast.Yield, ast.YieldFrom, ast.NamedExpr)) for x in ast.walk(e))
+
+
+def inline_new_temps(fn, pinned):
+    """A local that the reference tree did not have, bound once by `t = E` and read once in the statement that follows in
+    the same block, is a temporary introduced by a refactoring (`t = E; return t`): it is inlined again, so that clauses that
+    look at the statement see the expression.  Only where this cannot change the order of evaluation: E is free of calls, or
+    the reading statement is `return t` / `x = t` / an expression statement that is exactly a call whose first evaluated
+    operand is t."""
+    names = [c for c in ordered_locals(fn) if c not in pinned]
+    if not names:
+        return
+    for t in names:
+        stores = [n for n in ast.walk(fn) if isinstance(n, ast.Name) and n.id == t and isinstance(n.ctx, (ast.Store, ast.Del))]
+        loads = [n for n in ast.walk(fn) if isinstance(n, ast.Name) and n.id == t and isinstance(n.ctx, ast.Load)]
+        if len(stores) != 1 or len(loads) != 1:
+            continue
+        done = False
+        for node in ast.walk(fn):
+            for fld in ('body', 'orelse', 'finalbody'):
+                b = getattr(node, fld, None)
+                if not (isinstance(b, list) and b and isinstance(b[0], ast.stmt)):
+                    continue
+                for i, st in enumerate(b[:-1]):
+                    if not (isinstance(st, ast.Assign) and len(st.targets) == 1 and st.targets[0] is stores[0]):
+                        continue
+                    nxt = b[i + 1]
+                    if isinstance(nxt, (ast.FunctionDef, ast.AsyncFunctionDef, ast.ClassDef, ast.For, ast.While, ast.With, ast.Try)):
+                        continue
+                    # the read must be in the header/simple part of the next statement, not in a nested block
+                    hdr = [nxt.test] if isinstance(nxt, ast.If) else [nxt]
+                    if not any(loads[0] is x for h in hdr for x in ast.walk(h)):
+                        continue
+                    direct = (isinstance(nxt, ast.Return) and nxt.value is loads[0]) or \
+                        (isinstance(nxt, ast.Assign) and nxt.value is loads[0]) or \
+                        (isinstance(nxt, ast.Expr) and isinstance(nxt.value, (ast.Yield,)) and nxt.value.value is loads[0])
+                    if not direct and _has_effects(st.value):
+                        continue
+                    # substitute
+                    class _Sub(ast.NodeTransformer):
+                        def visit_Name(self, n):
+                            return st.value if n is loads[0] else n
+                    if isinstance(nxt, ast.If):
+                        nxt.test = _Sub().visit(nxt.test)
+                    else:
+                        b[i + 1] = _Sub().visit(nxt)
+                    del b[i]
+                    done = True
+                    break
+                if done:
+                    break
+            if done:
+                break
+
+
 def canonicalise_locals(m):
     if not getattr(m, '_noise_stripped', False):
         strip_noise(m.tree)
@@ -735,6 +791,9 @@ def canonicalise_locals(m):
         return
     for fq, fn in _outer_functions(m):
         want = pinned.get(fq)
+        if want is None:
+            continue
+        inline_new_temps(fn, set(want))
         if not want:
             continue
         cur = ordered_locals(fn)
